@@ -23,11 +23,12 @@ def r07a(model: Model, rr: RuleResult):
     ap = [c for c in calls_in(g) if callee_tail(c) == "apply_ttfont"]
     if len(p3) != 1 or len(ap) != 1:
         raise AnalysisError("_generate_color_font: post.formatType assignment / apply_ttfont not found")
-    facts = [(norm(e), pol) for e, pol in guard_facts(cfg, cfg.node_for(p3[0]))]
+    from ..guards import canon_facts
+    facts = canon_facts(cfg, cfg.node_for(p3[0]))
     if norm(p3[0].value) == "3" and ("config.keep_glyph_names", False) in facts and ("ttfont is not None", True) in facts:
         rr.ok("post.formatType = 3 exactly when glyph names are not requested (binary outputs only)")
     else:
-        rr.bad(g, p3[0], f"post format 3 is set under {facts}", construct=f"post.formatType = {short(p3[0].value)} under {facts}")
+        rr.bad_shape(g, p3[0], f"post format 3 is set under {facts}", construct=f"post.formatType = {short(p3[0].value)} under {facts}")
     if cfg.dominates(cfg.node_for(ap[0]), cfg.node_for(p3[0])):
         rr.ok("glyph names are stripped only after apply_ttfont (which needs stable names) has run")
     else:
@@ -46,7 +47,7 @@ def r07a(model: Model, rr: RuleResult):
     if ok:
         rr.ok("ufo2ft keeps glyph names when asked, and always for picosvg builds (the reshuffle matches glyphs by name)")
     else:
-        rr.bad(u, u.node, "KEEP_GLYPH_NAMES is not forced for picosvg builds / not taken from the option", construct="_ufo: KEEP_GLYPH_NAMES")
+        rr.bad_shape(u, u.node, "KEEP_GLYPH_NAMES is not forced for picosvg builds / not taken from the option", construct="_ufo: KEEP_GLYPH_NAMES")
     e = model.func("svg", "_ensure_groups_grouped_in_glyph_order")
     ecfg = cfg_of(e)
     a = [st for st in walk_body(e) if isinstance(st, ast.Assert) and "formatType == 2" in norm(st.test)]
@@ -88,7 +89,7 @@ def r07c(model: Model, rr: RuleResult):
     if sk:
         rr.ok("empty documents are skipped")
     else:
-        rr.bad(fi, fi.node, "empty SVG documents are emitted", construct="_picosvg_docs: empty document")
+        rr.bad_shape(fi, fi.node, "empty SVG documents are emitted", construct="_picosvg_docs: empty document")
     gi = [st for st in ast.walk(fi.node) if isinstance(st, ast.Assign) and norm(st.targets[0]) == "reuse_cache.gradient_ids" and norm(st.value) == "{}"]
     loops = [st for st in walk_body(fi) if isinstance(st, ast.For) and norm(st.iter) == "reuse_groups"]
     if gi and loops and any(x is gi[0] for x in ast.walk(loops[0])):
@@ -153,7 +154,7 @@ def r07d(model: Model, rr: RuleResult):
     if ok:
         rr.ok("_migrate_to_defs is taken whenever the reused element belongs to another colour glyph")
     else:
-        rr.bad(fi, mig[0], "reuse across glyphs is not forced through <defs>: a glyph element would reference content inside another glyph element",
+        rr.bad_shape(fi, mig[0], "reuse across glyphs is not forced through <defs>: a glyph element would reference content inside another glyph element",
                construct="_add_glyph: _migrate_to_defs condition")
     m = model.func("svg", "_migrate_to_defs")
     t = " ".join(norm(st) for st in ast.walk(m.node) if isinstance(st, ast.Expr))
@@ -181,12 +182,12 @@ def r07e(model: Model, rr: RuleResult):
     if srt and "glyph_id" in norm(kwarg(srt[0].value, "key")) and wl and cfg.dominates(cfg.node_for(srt[0]), cfg.node_for(wl[0])):
         rr.ok("glyphs are sorted by glyph id before being split into runs")
     else:
-        rr.bad(fi, fi.node, "glyphs are not sorted by glyph id before run splitting", construct="make_cbdt_table: sort")
+        rr.bad_shape(fi, fi.node, "glyphs are not sorted by glyph id before run splitting", construct="make_cbdt_table: sort")
     inner = [st for st in ast.walk(fi.node) if isinstance(st, ast.While) and "glyph_id" in norm(st.test)]
     if inner and "color_glyphs[end].glyph_id == color_glyphs[end - 1].glyph_id + 1" in norm(inner[0].test) and "len(color_glyphs) > end" in norm(inner[0].test):
         rr.ok("a run is extended while the next glyph id is the previous + 1")
     else:
-        rr.bad(fi, fi.node, "run splitting does not compare consecutive glyph ids with + 1", construct=f"run predicate {short(inner[0].test) if inner else None}")
+        rr.bad_shape(fi, fi.node, "run splitting does not compare consecutive glyph ids with + 1", construct=f"run predicate {short(inner[0].test) if inner else None}")
     t = " ".join(norm(st) for st in ast.walk(fi.node) if isinstance(st, ast.Assign))
     rest = [st for st in ast.walk(fi.node) if isinstance(st, ast.Assign) and norm(st.targets[0]) == "color_glyphs" and isinstance(st.value, ast.Subscript)
             and norm(st.value.value) == "color_glyphs" and isinstance(st.value.slice, ast.Slice) and st.value.slice.upper is None]
@@ -233,13 +234,13 @@ def r07e(model: Model, rr: RuleResult):
             and norm(names[0].value.elt) == f"ttfont.getGlyphName({norm(names[0].value.generators[0].target)}.glyph_id)" and locs and norm(locs[0].args[-1]) == "color_glyphs":
         rr.ok("names and locations enumerate the same glyph sequence in the same order")
     else:
-        rr.bad(s, s.node, "index-subtable names and locations are not built from the same sequence", construct="_make_cbdt_strike: names/locations")
+        rr.bad_shape(s, s.node, "index-subtable names and locations are not built from the same sequence", construct="_make_cbdt_strike: names/locations")
     o = model.func("bitmap_tables", "_cbdt_bitmapdata_offsets")
     t = " ".join(norm(st) for st in ast.walk(o.node) if isinstance(st, (ast.Expr, ast.AugAssign, ast.Return)))
     if "offsets.append(offset)" in t and "offset += _cbdt_record_size(image_format, color_glyph.bitmap)" in t and "return list(zip(offsets, offsets[1:]))" in t:
         rr.ok("locations are consecutive (start, end) pairs sized by each glyph's own record")
     else:
-        rr.bad(o, o.node, "bitmap data offsets are not consecutive per-glyph (start, end) pairs", construct="_cbdt_bitmapdata_offsets body")
+        rr.bad_shape(o, o.node, "bitmap data offsets are not consecutive per-glyph (start, end) pairs", construct="_cbdt_bitmapdata_offsets body")
     # maximum_color's re-sharding (_copy_cbdt) must cut runs by the TARGET's glyph ids: the table lives in the target font
     cc = model.func("glue_together", "_copy_cbdt")
     donor_gid = [n for n in walk_body(cc) if isinstance(n, ast.Attribute) and n.attr in ("getGlyphID", "getReverseGlyphMap", "getGlyphOrder", "getGlyphName")
@@ -264,7 +265,7 @@ def r07e(model: Model, rr: RuleResult):
     if wl and "len(new_order) > end" in norm(wl[0].test):
         rr.ok("_copy_cbdt: a run is extended while the next target gid is the previous + 1")
     else:
-        rr.bad(cc, cc.node, "_copy_cbdt no longer splits runs at gid gaps", construct="_copy_cbdt: run predicate")
+        rr.bad_shape(cc, cc.node, "_copy_cbdt no longer splits runs at gid gaps", construct="_copy_cbdt: run predicate")
     r = model.func("bitmap_tables", "_cbdt_record_size")
     if "_CBDT_SMALL_METRIC_PNG_HEADER_SIZE + len(image_data)" in norm(r.body[-1]):
         hs = model.mod("bitmap_tables").const("_CBDT_SMALL_METRIC_PNG_HEADER_SIZE")
@@ -339,12 +340,12 @@ def r14b(model: Model, rr: RuleResult):
     if idd and all(norm(d.value) == f"{b}.bitmap" for d in idd):
         rr.ok("sbix: the stored bytes are the glyph's PNG itself (no transformation)")
     else:
-        rr.bad(s, sg[0], "sbix image bytes are not the glyph's PNG unchanged", construct="make_sbix_table: image_data")
+        rr.bad_shape(s, sg[0], "sbix image bytes are not the glyph's PNG unchanged", construct="make_sbix_table: image_data")
     st = [x for x in ast.walk(lp[0]) if isinstance(x, ast.Assign) and norm(x.targets[0]) == "strike.glyphs[glyph_name]"]
     if st and norm(st[0].value) == "glyph":
         rr.ok("sbix: record stored under its own glyph name")
     else:
-        rr.bad(s, s.node, "sbix record is not stored under its glyph's name", construct="strike.glyphs[...]")
+        rr.bad_shape(s, s.node, "sbix record is not stored under its glyph's name", construct="strike.glyphs[...]")
     c = model.func("bitmap_tables", "_make_cbdt_strike")
     data = [x for x in walk_body(c) if isinstance(x, ast.Assign) and norm(x.targets[0]) == "data" and isinstance(x.value, ast.DictComp)]
     if data:
@@ -355,12 +356,12 @@ def r14b(model: Model, rr: RuleResult):
         else:
             rr.bad(c, data[0], "CBDT record pairs a glyph name with another glyph's metrics or image", construct=short(dc, 140))
     else:
-        rr.bad(c, c.node, "CBDT data mapping not found", construct="_make_cbdt_strike: data")
+        rr.bad_shape(c, c.node, "CBDT data mapping not found", construct="_make_cbdt_strike: data")
     m = [x for x in walk_body(c) if isinstance(x, ast.Assign) and norm(x.targets[0]) == "metrics" and isinstance(x.value, ast.DictComp)]
     if m and norm(m[0].value.key).endswith(".glyph_id") and "BitmapMetrics.create(config, c.bitmap, ppem)" in norm(m[0].value.value):
         rr.ok("CBDT: metrics computed from each glyph's own bitmap at the strike's ppem")
     else:
-        rr.bad(c, c.node, "CBDT metrics are not computed per glyph from its own bitmap", construct="_make_cbdt_strike: metrics")
+        rr.bad_shape(c, c.node, "CBDT metrics are not computed per glyph from its own bitmap", construct="_make_cbdt_strike: metrics")
     bd = model.func("bitmap_tables", "_cbdt_bitmap_data")
     t = " ".join(norm(x) for x in bd.body)
     want = ["bitmap_data.metrics.width, bitmap_data.metrics.height = image_data.size", "bitmap_data.metrics.BearingX = metrics.x_offset",
